@@ -163,7 +163,7 @@ func init() {
 	Register(&Prop{
 		ID:        "C14",
 		Technique: "bounded exhaustive enumeration of schema models x layout combinations; differential comparison of every observable against the canonical rendering of the same model",
-		Rule:      "every model of the annotated-model family (<=2 levels, <=2 children, every node kind, ordered rule selections, notes) rendered under every layout differing from the canonical one in <=2 (thorough: all 575) of the dimensions padding{none,1,3,tab} x newline{LF,CRLF,CR} x blank lines x annotation style{//,/* */,/* */ broken} x rule-name quoting x user comments{none,# eol,# own line,### block}; non-trivial = renderings of accepted models",
+		Rule:      "every model of the annotated-model family (<=2 levels, <=2 children, every node kind, ordered rule selections, notes) rendered under every layout differing from the canonical one in <=2 (thorough: all 1079) of the dimensions padding{none,1,3,tab,glued} x newline{LF,CRLF,CR} x blank lines x annotation style{//,/* */,/* */ broken} x rule-name quoting{bare,quoted,quoted with an escaped letter} x user comments{none,# eol,# own line,### block}; non-trivial = renderings of accepted models",
 		Bounds: func(tier string) map[string]any {
 			return map[string]any{"layouts": len(c14Layouts(tier == "thorough")), "family_level": map[string]int{"quick": 2, "thorough": 3}[tier]}
 		},
